@@ -118,7 +118,10 @@ def reach_link_dotdot(work, path, decoy=None, fmt=None):
 
 
 def build(case, work, name="plt00010"):
-    m = gen.gen_model(**case["gen"])
+    if case.get("scale"):      # inputs of the sizes real runs reach (gen.scale_model)
+        m = gen.scale_model(case["scale"], **case["gen"])
+    else:
+        m = gen.gen_model(**case["gen"])
     if case.get("deepen"):
         gen.deepen(m, case["deepen"], case["gen"]["seed"])
     if case.get("zero_fine"):
@@ -139,7 +142,7 @@ def build(case, work, name="plt00010"):
         to_store(path, level_links="levels" in case["store"])
     if case.get("reach"):
         decoy = None
-        if case["reach"].endswith("decoy"):
+        if case["reach"].endswith("decoy") and not case.get("scale"):
             decoy = gen.gen_model(**dict(case["gen"], data_seed=case["gen"]["seed"] + 77))
             decoy.time = m.time + 1.0 if m.time == m.time and abs(m.time) != float("inf") else 0.5
         path = reach_link_dotdot(work, path, decoy, case.get("fmt"))
